@@ -452,6 +452,9 @@ def write_evidence(prop_id, tier, seed, rule, stats_by_sc, n_viol, wall, extra=N
               coverage=cov, assumptions=assumptions or [], wall_s=round(wall, 2),
               violations=int(n_viol))
     d = os.path.join(VERIF_DIR, 'evidence')
+    if os.path.realpath(REPO) != '/repo':
+        # mutation / seeded-change runs against a scratch tree never touch the real evidence
+        d = os.path.join(VERIF_DIR, 'replays', '_scratch_evidence')
     os.makedirs(d, exist_ok=True)
     with open(os.path.join(d, prop_id + '.json'), 'w') as f:
         json.dump(sanitize_nan(ev), f, indent=1, allow_nan=False, default=_nan_safe,
